@@ -26,22 +26,21 @@ Const(n, v) == [i \in 1..n |-> v]
 (* ---- tolerances *)
 TolsReal == IF Level = 1
             THEN {AbsTol(Zero), AbsTol(Q(1, 2)), AbsTol(Q(1, 10)), PctTol(Zero), PctTol(I(50)), PctTol(I(10)), PctTol(Q(1, 100))}
-            ELSE {AbsTol(Zero), AbsTol(Q(1, 2)), AbsTol(Q(1, 10)), AbsTol(Q(1, 4)), AbsTol(I(3)),
-                  PctTol(Zero), PctTol(I(50)), PctTol(I(10)), PctTol(Q(1, 100)), PctTol(I(25)), PctTol(I(200))}
+            ELSE {AbsTol(Zero), AbsTol(Q(1, 2)), AbsTol(Q(1, 10)), AbsTol(I(3)),
+                  PctTol(Zero), PctTol(I(50)), PctTol(I(10)), PctTol(Q(1, 100)), PctTol(I(200))}
 TolsCx == IF Level = 1 THEN {AbsTol(Zero), AbsTol(Q(5, 4)), AbsTol(Q(1, 10)), PctTol(Zero), PctTol(I(50)), PctTol(I(10))}
-          ELSE {AbsTol(Zero), AbsTol(Q(5, 4)), AbsTol(Q(1, 10)), AbsTol(I(1)), PctTol(Zero), PctTol(I(50)), PctTol(I(10)),
-                PctTol(I(25)), PctTol(Q(1, 100))}
+          ELSE {AbsTol(Zero), AbsTol(Q(5, 4)), AbsTol(Q(1, 10)), PctTol(Zero), PctTol(I(50)), PctTol(I(10)), PctTol(Q(1, 100))}
 TolsArr == IF Level = 1 THEN {AbsTol(Zero), AbsTol(Q(5, 4)), AbsTol(Q(9, 8)), PctTol(Zero), PctTol(I(25)), PctTol(I(10))}
-           ELSE {AbsTol(Zero), AbsTol(Q(5, 4)), AbsTol(Q(9, 8)), AbsTol(Q(1, 10)), AbsTol(Q(3, 4)),
-                 PctTol(Zero), PctTol(I(25)), PctTol(I(10)), PctTol(I(50)), PctTol(Q(1, 100))}
+           ELSE {AbsTol(Zero), AbsTol(Q(5, 4)), AbsTol(Q(9, 8)), AbsTol(Q(1, 10)),
+                 PctTol(Zero), PctTol(I(25)), PctTol(I(10)), PctTol(Q(1, 100))}
 TolsInf == {AbsTol(Zero), AbsTol(Q(1, 2)), PctTol(I(50)), PctTol(I(1000))}
 TolsRw == IF Level = 1 THEN {AbsTol(Q(1, 10)), PctTol(Q(1, 100))}
-          ELSE {AbsTol(Q(1, 10)), AbsTol(Q(1, 1000)), PctTol(Q(1, 100)), PctTol(I(5)), PctTol(I(50))}
+          ELSE {AbsTol(Q(1, 10)), PctTol(Q(1, 100)), PctTol(I(5))}
 
 (* ---- samples / failable_evals: every pair of the documented ranges (Level 1 leaves out samples = 4) *)
-NF == IF Level = 1 THEN {<<1, 0>>, <<1, 2>>, <<2, 0>>, <<2, 1>>, <<2, 3>>, <<3, 0>>, <<3, 1>>, <<3, 2>>, <<3, 3>>}
+NF == IF Level = 1 THEN {<<1, 0>>, <<2, 0>>, <<2, 1>>, <<2, 3>>, <<3, 0>>, <<3, 1>>, <<3, 3>>}
       ELSE {<<n, f>> : n \in 1..4, f \in 0..3}
-NFsmall == IF Level = 1 THEN {<<1, 0>>, <<2, 0>>, <<2, 1>>, <<3, 1>>}
+NFsmall == IF Level = 1 THEN {<<1, 0>>, <<2, 0>>, <<3, 1>>}
            ELSE {<<1, 0>>, <<1, 1>>, <<2, 0>>, <<2, 1>>, <<2, 2>>, <<3, 0>>, <<3, 2>>, <<3, 3>>, <<4, 2>>}
 \* the answer's credit alternates with the seed so that full and partial credit are both exercised everywhere
 CreditOf(n, f) == IF (n + f) % 2 = 0 THEN One ELSE Q(1, 2)
@@ -133,7 +132,7 @@ Pat3(S) == {<<a, b, a>> : a \in S, b \in S} \cup {<<a, a, b>> : a \in S, b \in S
 Pat4(S) == {<<a, b, c, a>> : a \in S, b \in S, c \in S}
 AllSeq(n, S) == [1..n -> S]
 Scripts(n, S, S3) == IF n <= 2 THEN AllSeq(n, S)
-                     ELSE IF n = 3 THEN (IF Level = 1 THEN Pat3(S3) ELSE AllSeq(3, S3) \cup Pat3(S))
+                     ELSE IF n = 3 THEN (IF Level = 1 THEN Pat3(S3) ELSE AllSeq(3, S3))
                      ELSE Pat4(S3)
 XReal3 == {R(-2, 1), R(1, 2), R(4, 1)}
 XCx3 == {C(1, 1, 2, 1), C(-1, 2, 0, 1), C(0, 1, -3, 4)}
@@ -168,7 +167,7 @@ EnvVals == IF Level = 1 THEN {Q(-2, 1), Q(1, 2), I(3)} ELSE {Q(-2, 1), Q(1, 2), 
 Env(x, y) == [v \in {"x", "y"} |-> IF v = "x" THEN x ELSE y]
 Envs == {Env(x, y) : x \in EnvVals, y \in EnvVals}
 MidEnvs == IF Level = 1 THEN {Env(Q(1, 2), I(3)), Env(Q(-2, 1), Q(-2, 1))}
-           ELSE {Env(Q(1, 2), I(3)), Env(Q(-2, 1), Q(-2, 1)), Env(Q(-1, 3), Q(1, 2)), Env(I(3), Q(-1, 3))}
+           ELSE {Env(Q(1, 2), I(3)), Env(Q(-2, 1), Q(-2, 1)), Env(Q(-1, 3), Q(1, 2))}
 EnvSeqs(n) == IF n = 1 THEN {<<e>> : e \in MidEnvs}
               ELSE IF n = 2 THEN {<<Env(Q(-2, 1), I(3)), e>> : e \in MidEnvs}
               ELSE IF n = 3 THEN {<<Env(I(3), Q(1, 2)), e, Env(Q(1, 2), Q(-2, 1))>> : e \in MidEnvs}
